@@ -47,6 +47,10 @@ fn main() {
                 run = Run::new("C17", &tier, "model_checking");
                 engines::c17::run(&mut run);
             }
+            "C13" => {
+                run = Run::new("C13", &tier, "model_checking");
+                engines::c13::run(&mut run);
+            }
             _ => {
                 eprintln!("MACHINERY: no engine for {}", prop);
                 return 2;
@@ -71,6 +75,7 @@ fn replay(dir: &str) -> i32 {
     let prop = doc["property"].as_str().unwrap_or("?").to_string();
     let res = pool::on_fresh_thread(1, || match case["engine"].as_str().unwrap_or("") {
         "c17" => engines::c17::replay(case),
+        "c13" => engines::c13::replay(case),
         other => {
             eprintln!("MACHINERY: unknown engine {}", other);
             std::process::exit(2);
